@@ -15,7 +15,7 @@ impl Monitor for C09 {
         "C09"
     }
     fn gens(&self, tier: Tier) -> Vec<Gen> {
-        vec![gen("states", tier.pick(3_000, 150_000, 3)), gen("joins", tier.pick(1_500, 60_000, 2)), gen("single-channel", 9 * 3 * 16 * tier.pick(1, 10, 0))]
+        vec![gen("states", tier.pick(3_000, 400_000, 3)), gen("joins", tier.pick(1_500, 150_000, 2)), gen("single-channel", 9 * 3 * 16 * tier.pick(1, 10, 0))]
     }
     fn rule(&self) -> String {
         "states: a channel-plan state is reached by a history over {LinkADRReq (DR x power x ChMaskCntl x mask patterns, blocks), NewChannelReq create/delete, DlChannelReq, CFList via OTAA, set_datarate, bursts of silent uplinks for ADR back-off, join bias}; the history is re-run from scratch for 16 scripted RNG start values and in the reached state one uplink is made for every scripted RNG start value 0..127, so every possible channel choice is observed. joins: join attempts (incl. biases, re-joins after CFList/LinkADR) for every RNG start value. Every TxConfig handed to the radio is judged against the snapshot taken immediately before the call and the regional tables. Class = (region, plan-state hash, frame kind, chosen channel).".into()
